@@ -27,7 +27,9 @@ class AppLab:
             data = []
             for (sp, dp), r in zip(tuples, rs):
                 if r.kind == "R":
-                    data.append(e.tcp(sp, dp, 2, (pkt.parse(r.reply).seq + 1) & 0xFFFFFFFF, PSH | ACK, payload))
+                    ck = pkt.parse(r.reply).seq
+                    self.ctx.claim_cookie(ck, (e.cip, e.sip, sp, dp))
+                    data.append(e.tcp(sp, dp, 2, (ck + 1) & 0xFFFFFFFF, PSH | ACK, payload))
             rs = self.ctx.send_many(data)
             made += m
         self.ctx.case(reset=False)
